@@ -276,12 +276,17 @@ func kindsOf(n *Node) []string {
 	return ks
 }
 
-// classifyPeerClose fills Path/After of a peer-close site (needs the finished
-// call graph, so the walker records the raw material and finish() decides).
-func (w *siteWalker) classifyPeerClose(s *Site, call *ast.CallExpr) {
+// callCtx: one static call of a function, with the calls that dominate it.
+type callCtx struct {
+	caller string
+	pre    []string
+}
+
+// dominating: the in-scope functions called (and router components stopped)
+// by the statements that dominate the current position: the statements
+// preceding it in its block and in every enclosing block of the function.
+func (w *siteWalker) dominating() []string {
 	a := w.a
-	// calls made by the statements that dominate the close: the statements
-	// preceding it in its block and in every enclosing block of the function
 	var pre []string
 	for bi := len(w.blockStack) - 1; bi >= 0; bi-- {
 		for i := 0; i < w.stmtIndex[bi] && i < len(w.blockStack[bi]); i++ {
@@ -308,11 +313,52 @@ func (w *siteWalker) classifyPeerClose(s *Site, call *ast.CallExpr) {
 			})
 		}
 	}
-	s.After = pre
+	return pre
+}
+
+// noteCall records the context of a static call (used to classify a peer
+// close that sits in a helper function by the places the helper is called from).
+func (w *siteWalker) noteCall(e *ast.CallExpr) {
+	a := w.a
+	key := ""
+	if fn := calleeOf(a.curPkg.Info, e); fn != nil {
+		if n, ok := a.byName[fn.FullName()]; ok {
+			key = n.Key
+		}
+	} else if id, ok := unparen(e.Fun).(*ast.Ident); ok {
+		if o := a.curPkg.Info.ObjectOf(id); o != nil {
+			if fl, ok := a.litLocal[o]; ok && a.litAssig[o] == 1 {
+				key = a.litNode[fl].Key
+			}
+		}
+	}
+	if key == "" {
+		return
+	}
+	if w.calls == nil {
+		w.calls = map[string][]callCtx{}
+	}
+	w.calls[key] = append(w.calls[key], callCtx{caller: a.cur.Key, pre: w.dominating()})
+}
+
+// classifyPeerClose records the raw material; finishPeerClose decides once
+// the call graph is complete.
+func (w *siteWalker) classifyPeerClose(s *Site, call *ast.CallExpr) {
+	s.After = w.dominating()
 	s.Detail = append([]string{}, w.condStack...)
 }
 
-func (g *graphInfo) finishPeerClose(sites []*Site) {
+type closeCtx struct {
+	goRoot bool
+	loop   bool
+	remB   bool
+	remD   bool
+	stopB  bool
+	stopD  bool
+	attach bool // some function on the chain starts the handler (and is not the handler's goroutine)
+}
+
+func (g *graphInfo) finishPeerClose(sites []*Site, calls map[string][]callCtx) {
 	a := g.a
 	// handler starters: nodes that launch a goroutine reaching a handler loop
 	starters := map[string]bool{}
@@ -325,69 +371,114 @@ func (g *graphInfo) finishPeerClose(sites []*Site) {
 			}
 		}
 	}
-	for _, s := range sites {
-		if s.Class != "peerclose" {
-			continue
+	reachesStarter := func(k string) bool {
+		for r := range g.reach(k) {
+			if starters[r] {
+				return true
+			}
 		}
-		n := a.nodes[s.Node]
-		pre := s.After
-		s.After = nil
-		afterLoop := false
-		owners := map[string]bool{}
-		stopped := map[string]bool{}
+		return false
+	}
+	absorb := func(c closeCtx, pre []string) closeCtx {
 		for _, p := range pre {
+			switch p {
+			case "stopped:router.broker":
+				c.stopB = true
+				continue
+			case "stopped:router.dealer":
+				c.stopD = true
+				continue
+			}
 			if strings.HasPrefix(p, "stopped:") {
-				stopped[p] = true
 				continue
 			}
 			for r := range g.reach(p) {
 				if g.handlerLoop[r] {
-					afterLoop = true
+					c.loop = true
 				}
 				for _, o := range g.sessDeletes[r] {
-					owners[o] = true
+					switch o {
+					case "router.broker":
+						c.remB = true
+					case "router.dealer":
+						c.remD = true
+					}
 				}
 			}
 		}
-		if afterLoop {
-			s.After = append(s.After, "handler-loop")
+		return c
+	}
+	// expand: every chain of callers from node k up to a goroutine entry (or
+	// a function nobody calls), accumulating what dominates each call
+	var expand func(k string, c closeCtx, depth int, seen map[string]bool) []closeCtx
+	expand = func(k string, c closeCtx, depth int, seen map[string]bool) []closeCtx {
+		n := a.nodes[k]
+		if n == nil {
+			return []closeCtx{c}
 		}
-		os := make([]string, 0, len(owners))
-		for o := range owners {
-			os = append(os, "removed-from:"+o)
+		if n.GoLaunched {
+			c.goRoot = true
+			return []closeCtx{c}
 		}
-		for o := range stopped {
-			os = append(os, o)
+		if reachesStarter(k) {
+			c.attach = true
 		}
-		sort.Strings(os)
-		s.After = append(s.After, os...)
+		var callers []callCtx
+		callers = append(callers, calls[k]...)
+		if n.Lit != nil && n.Parent != nil && len(callers) == 0 {
+			// a literal that is not called through a variable: runs where it is defined
+			callers = append(callers, callCtx{caller: n.Parent.Key})
+		}
+		if len(callers) == 0 || depth == 0 || seen[k] {
+			if n.Lit != nil && n.Parent != nil && reachesStarter(n.Parent.Key) {
+				c.attach = true
+			}
+			return []closeCtx{c}
+		}
+		seen2 := map[string]bool{k: true}
+		for x := range seen {
+			seen2[x] = true
+		}
+		var out []closeCtx
+		for _, cc := range callers {
+			out = append(out, expand(cc.caller, absorb(c, cc.pre), depth-1, seen2)...)
+		}
+		return out
+	}
+	for _, s := range sites {
+		if s.Class != "peerclose" {
+			continue
+		}
+		pre := s.After
+		s.After = nil
+		chains := expand(s.Node, absorb(closeCtx{}, pre), 5, map[string]bool{})
+		all := func(f func(closeCtx) bool) bool {
+			for _, c := range chains {
+				if !f(c) {
+					return false
+				}
+			}
+			return len(chains) > 0
+		}
+		tag := func(name string, f func(closeCtx) bool) {
+			if all(f) {
+				s.After = append(s.After, name)
+			}
+		}
+		tag("handler-loop", func(c closeCtx) bool { return c.loop })
+		tag("removed-from:router.broker", func(c closeCtx) bool { return c.remB })
+		tag("removed-from:router.dealer", func(c closeCtx) bool { return c.remD })
+		tag("stopped:router.broker", func(c closeCtx) bool { return c.stopB })
+		tag("stopped:router.dealer", func(c closeCtx) bool { return c.stopD })
 		switch {
-		case n.GoLaunched && afterLoop:
+		case all(func(c closeCtx) bool { return c.goRoot && c.loop }):
 			s.Path = "exit"
-		case stopped["stopped:router.broker"] || stopped["stopped:router.dealer"]:
-			// the shutdown path: after broker and dealer have stopped
+		case all(func(c closeCtx) bool { return c.stopB || c.stopD }):
 			s.Path = "shutdown"
+		case all(func(c closeCtx) bool { return c.attach && !c.loop }):
+			s.Path = "presession"
 		default:
 			s.Path = "other"
-			// the attach path: a node (or an enclosing one) that starts the
-			// handler, i.e. runs before a handler exists for this peer
-			for p := n; p != nil; p = p.Parent {
-				for r := range g.reach(p.Key) {
-					if starters[r] && !p.GoLaunched {
-						s.Path = "presession"
-					}
-				}
-			}
-			if strings.Contains(s.Func, "$") && s.Path == "other" {
-				// literal defined inside an attach function
-				for p := n.Parent; p != nil; p = p.Parent {
-					for r := range g.reach(p.Key) {
-						if starters[r] {
-							s.Path = "presession"
-						}
-					}
-				}
-			}
 		}
 	}
 }
